@@ -461,15 +461,18 @@ def check_log(spec, log):
         if k == "start":
             t = op["out"]
             cfg[t] = (op["cfg"], op["maxres"])
-            runs.setdefault(t, []).append(dict(te=c + d["start"], cfg=cfg[t], rp=None, next=None, gaps=False, n=0))
+            runs.setdefault(t, []).append(dict(te=c + d["start"], cfg=cfg[t], rp=None, next=None, gaps=False, n=0,
+                                               live=True, consumed=c))
         elif k == "resume":
             t = op["t"]
             if op["newc"] is not None:
                 cfg[t] = tuple(op["newc"])
             runs.setdefault(t, []).append(dict(te=c + d["start"], cfg=cfg[t], rp=rp.get(t) if spec["checkpointing"] else None,
-                                               next=None, gaps=False, n=0))
-        elif k == "pause":
-            if op["lvl"] is not None:
+                                               next=None, gaps=False, n=0, live=True, consumed=c))
+        elif k in ("pause", "stop"):
+            if op["t"] in runs:
+                runs[op["t"]][-1]["live"] = False      # its queued and pending reports are dropped
+            if k == "pause" and op["lvl"] is not None:
                 rp[op["t"]] = op["lvl"]
         elif k == "fetch":
             for t, rl in runs.items():
@@ -536,6 +539,26 @@ def check_log(spec, log):
                                  dict(defect="levels_not_consecutive")))
                 run["next"] = lvl + 1
                 run["n"] += 1
+            # ---- in time: every report of a polled, running trial that is due by now and was not due at the
+            # previous fetch must be in this fetch's output
+            got = {}
+            for (t, lvl, el, mets, ts) in op["results"]:
+                got.setdefault(t, set()).add(lvl)
+            for t, rl in runs.items():
+                run = rl[-1]
+                if run["live"] and t in op["ids"]:
+                    idx, maxres = run["cfg"]
+                    seed = spec["fixed_seed"] if spec["fixed_seed"] is not None else (0 if spec["nseeds"] == 1 else seed_of.get(t))
+                    if idx < ncfg and seed is not None and 0 <= seed < spec["nseeds"] and (maxres is None or maxres >= 1):
+                        for (l2, e2, m2) in expected_run(spec, idx, seed, maxres, run["rp"]):
+                            ts2 = run["te"] + e2 + d["result"]
+                            tol = 1e-9 * (abs(ts2) + 1.0)
+                            if run["consumed"] + tol < ts2 < c - tol and l2 not in got.get(t, ()):
+                                viol.append(("a report that is due is not delivered by the fetch that polls its trial: op %d trial %d "
+                                             "level %d due at %r, clock %r, previous fetch at %r" % (i, t, l2, ts2, c, run["consumed"]),
+                                             dict(defect="due_result_not_delivered")))
+                                break
+                run["consumed"] = c
     return viol
 
 
